@@ -401,9 +401,10 @@ func (c *Config) validateLogging() error {
 	validLogFormats := map[string]bool{
 		"json":    true,
 		"console": true,
+		"text":    true, // documented name of the console format (README, shipped helios.yaml)
 	}
 	if c.Logging.Format != "" && !validLogFormats[c.Logging.Format] {
-		return fmt.Errorf("invalid log format: %s (valid: json, console)", c.Logging.Format)
+		return fmt.Errorf("invalid log format: %s (valid: text, json, console)", c.Logging.Format)
 	}
 	return nil
 }
